@@ -1015,7 +1015,7 @@ ANgetdatainfo(int32  ann_id, /* IN: annotation id */
         HGOTO_ERROR(DFE_ARGS, FAIL);
 
     /* Get annotation record */
-    ann_node = HAatom_object(ann_id);
+    ann_node = HAatom_group(ann_id) == ANIDGROUP ? HAatom_object(ann_id) : NULL; /* an id of another kind is no annotation */
     if (NULL == ann_node)
         HGOTO_ERROR(DFE_ARGS, FAIL);
 
